@@ -14,7 +14,8 @@ Definition run (c : sexp) : sexp :=
       match as_str w, as_opt as_nat amt, as_bool eof with
       | Some w, Some amt, Some eof =>
           let '(ps, o) := read_chunked (S (length w)) w amt in
-          SL [SN (s_outcome o); s_str (concat ps); s_bool (match o with Complete => negb eof | _ => false end)]
+          SL [SN (s_outcome o); s_str (concat ps); s_bool (match o with Complete => negb eof | _ => false end);
+              s_bool (match o with Complete => true | _ => false end)]
       | _, _, _ => s_bad_case
       end
   | _ => s_bad_case
